@@ -12,7 +12,7 @@ from __future__ import annotations
 
 import ast
 
-from ..cachepaths import counted_methods
+from ..cachepaths import counted_methods, sanctioned_helpers
 from ..common import attr_stores, seg, short
 from ..model import AnalysisError
 from ..paths import calls_in, event_exprs, function_paths
@@ -68,7 +68,7 @@ def run(ctx: Ctx) -> None:
     r.floor(1)
 
     r = ctx.rule("R07.own", "who may write `cycles`")
-    counted = {f.qname for f, _ in counted_methods(m)}
+    counted = {f.qname for f, _ in counted_methods(m)} | sanctioned_helpers(m)
     n = 0
     for f, st, t in attr_stores(m, "cycles"):
         n += 1
@@ -82,7 +82,7 @@ def run(ctx: Ctx) -> None:
         else:
             ok = False
         r.check(ok, key, f.loc(st), f"unexpected writer of the cycle counter: {short(f.qname)}: `{seg(f, st)}`")
-    r.floor(13)
+    r.floor(6)  # the pipeline tick, the two TOY ticks, and a penalty writer per cache system
     # the TOY halves tick exactly once per non-done, non-raising path
     for name in ("first_cycle_step", "second_cycle_step"):
         f = m.method("ToySimulation", name, own=True)
